@@ -129,7 +129,7 @@ inline std::string run_signal_history(vf::rng &r, std::string &trace, int &ops) 
             trace += "connect(" + std::to_string(l.cb_limit) + ") ";
             sl_rec *lp = &l;
             if (use_void) vsig->connect([lp, g = sl_cb_guard(lp)]() { lp->vals.push_back(0); return lp->cb_limit < 0 || (int)lp->vals.size() < lp->cb_limit; });
-            else sig->connect([lp, g = sl_cb_guard(lp)](int &v) { lp->vals.push_back(v); lp->addrs.push_back(&v); return lp->cb_limit < 0 || (int)lp->vals.size() < lp->cb_limit; });
+            else sig->connect([lp, g = sl_cb_guard(lp)](auto &&v) { lp->vals.push_back(v); lp->addrs.push_back(&v); return lp->cb_limit < 0 || (int)lp->vals.size() < lp->cb_limit; });
         } else if (x >= 77 && x < 80) { // an away listener comes back and awaits its emitter again
             for (auto &l : L) if (l.away && l.gate_prom) {
                 trace += "listener-returns ";
@@ -280,6 +280,65 @@ inline std::string run_hookup_history(vf::rng &r, std::string &trace, int &ops) 
     if (err.empty()) check_all("final drop");
     return err;
 }
+// ---------------------------------------------------------------------------------------------
+// Values whose move empties the source (std::string): ONE emission is shared by every listener waiting at that moment - coroutine
+// listeners and connected callbacks that take the value by value, by const reference or by forwarding reference, registered in any
+// order. Each of them must receive exactly the emitted text, whichever collector form (temporary, lvalue, copy of an lvalue) was used.
+inline cocls::async<void> ss_listener(cocls::signal<std::string>::emitter em, std::vector<std::string> &got, int &canceled) {
+    try { for (;;) { std::string &v = co_await em; got.push_back(v); } }
+    catch (const cocls::await_canceled_exception &) { canceled++; }
+}
+inline void signal_string_values(const vf::opts &o, vf::report &R, uint64_t cases) {
+    vf::rng master(vf::mix(o.seed, 0x15a));
+    for (uint64_t cn = 0; cn < cases && R.nviol() < 5; cn++) {
+        vf::rng r(master.next());
+        vf::set_crash_ctx(R.prop.c_str(), "signal_string_values", o.seed, cn);
+        std::string err, desc;
+        int nl = 2 + (int)r.below(5);
+        std::vector<std::vector<std::string>> got((size_t)nl);
+        std::vector<int> canceled((size_t)nl, 0), limit((size_t)nl, -1), kind((size_t)nl, 0);
+        std::vector<std::string> emitted;
+        {
+            cocls::signal<std::string> sig;
+            auto col = sig.get_collector();
+            for (int i = 0; i < nl; i++) {
+                kind[(size_t)i] = (int)r.below(4); // 0 coroutine, 1 callback by value, 2 callback by const reference, 3 callback by forwarding reference
+                if (kind[(size_t)i] && r.chance(1, 4)) limit[(size_t)i] = 1 + (int)r.below(3);
+                auto *g = &got[(size_t)i]; int lim = limit[(size_t)i];
+                switch (kind[(size_t)i]) {
+                case 0: ss_listener(sig.get_emitter(), *g, canceled[(size_t)i]).detach(); desc += "coroutine,"; break;
+                case 1: sig.connect([g, lim](std::string v) { g->push_back(std::move(v)); return lim < 0 || (int)g->size() < lim; }); desc += "callback(by value),"; break;
+                case 2: sig.connect([g, lim](const std::string &v) { g->push_back(v); return lim < 0 || (int)g->size() < lim; }); desc += "callback(const&),"; break;
+                default: sig.connect([g, lim](auto &&v) { g->push_back(v); return lim < 0 || (int)g->size() < lim; }); desc += "callback(auto&&),"; break;
+                }
+            }
+            int ne = 1 + (int)r.below(5);
+            for (int e = 0; e < ne; e++) {
+                std::string text = "value-" + std::to_string(cn) + "-" + std::to_string(e) + "-long enough to live on the heap, not in the small buffer";
+                emitted.push_back(text);
+                switch (r.below(3)) {
+                case 0: col(std::string(text)); desc += " emit(temporary)"; break;
+                case 1: { std::string lv = text; col(lv); desc += " emit(lvalue)"; break; }
+                default: { std::string lv = text; col(std::move(lv)); desc += " emit(moved lvalue)"; break; }
+                }
+            }
+        } // last handle gone: coroutine listeners are cancelled
+        R.cases++;
+        for (int i = 0; i < nl && err.empty(); i++) {
+            size_t want = limit[(size_t)i] < 0 ? emitted.size() : std::min(emitted.size(), (size_t)limit[(size_t)i]);
+            if (got[(size_t)i].size() != want) err = "listener #" + std::to_string(i) + " received " + std::to_string(got[(size_t)i].size()) + " values, expected " + std::to_string(want);
+            for (size_t k = 0; k < got[(size_t)i].size() && k < emitted.size() && err.empty(); k++)
+                if (got[(size_t)i][k] != emitted[k]) err = "listener #" + std::to_string(i) + " received '" + got[(size_t)i][k].substr(0, 24) + "' for emission " + std::to_string(k) + " instead of the emitted text (value damaged by another listener of the same emission)";
+            if (err.empty() && kind[(size_t)i] == 0 && canceled[(size_t)i] != 1) err = "coroutine listener was not cancelled exactly once at disconnect";
+        }
+        if (!err.empty()) { R.violation("monitor:delivery|signal_string_values", err, vf::jobj().kv("case", (unsigned long long)cn).kv("seed", (unsigned long long)o.seed).kv("desc", desc).str()); continue; }
+        R.nontrivial_cases++;
+        R.sig(desc);
+        R.cls("string_emissions", (uint64_t)emitted.size());
+        if (R.samples.size() < 2) R.sample(vf::jobj().kv("listeners_and_emissions", desc).kv("result", "every listener received exactly the emitted texts").str());
+    }
+}
+
 inline void signal_history(const vf::opts &o, vf::report &R, uint64_t histories) {
     vf::rng master(vf::mix(o.seed, 0x15));
     for (uint64_t hn = 0; hn < histories && R.nviol() < 5; hn++) {
